@@ -163,7 +163,26 @@ def run(ctx):
             q = getattr(q, "_parent", None)
         return q
 
-    skipping = [n for lp in loops for n in ast.walk(lp) if isinstance(n, (ast.Continue, ast.Break)) and _own_loop(n) is lp]
+    # every iteration contributes a field schema (or raises): from the loop header, the header cannot be reached again - nor the loop left by
+    # break - without passing a statement that appends to / yields into the field list
+    skipping = []
+    for lp in loops:
+        hdr = dcfg.node_of(lp)
+
+        def adds(nd):
+            a0 = nd.ast
+            return a0 is not None and nd.kind == "stmt" and any(
+                (isinstance(c, ast.Call) and isinstance(c.func, ast.Attribute) and c.func.attr in ("append", "add", "extend")) or isinstance(c, (ast.Yield,))
+                or (isinstance(c, ast.Subscript) and isinstance(c.ctx, ast.Store)) for c in ast.walk(a0))
+
+        starts = [v for v, _ in dcfg.succ[hdr.id] if dcfg.nodes[v].ast is not None and any(dcfg.nodes[v].ast is b or any(x is dcfg.nodes[v].ast for x in ast.walk(b)) for b in lp.body)]
+        for s0 in starts:
+            if adds(dcfg.nodes[s0]):
+                continue
+            reach = dcfg.reachable(s0, avoid=adds)
+            if hdr.id in reach:
+                skipping.append(lp)
+        skipping += [n for n in ast.walk(lp) if isinstance(n, ast.Break) and _own_loop(n) is lp]
     ctx.check(len(loops) == 1 and not skipping, "R19.2", "descriptor_to_schema:all-fields", "the schema does not cover all fields incl. reserved ones", dts,
               "iterates desc.get_all_fields() without skipping")
 
@@ -199,10 +218,21 @@ def run(ctx):
     ctx.check(ok, "R19.3", "schema_to_descriptor:embedded", "the embedded descriptor is not detected / destructured as (name, fields)", std, "name, fields = json.loads(doc)")
     rets = [x for x in walk_no_nested(std) if isinstance(x, ast.Return)]
     rok = bool(rets)
+    fallback_lists = set()
     for rt_ in rets:
         v = rt_.value
         r_ = prog.resolve_expr(std._module, v.func) if isinstance(v, ast.Call) else None
-        rok &= isinstance(r_, DefRef) and r_.qualname == "flow.record.base.RecordDescriptor" and [norm(a) for a in v.args] == [nm, fl] and not v.keywords
+        good_ctor = isinstance(r_, DefRef) and r_.qualname == "flow.record.base.RecordDescriptor" and len(v.args) == 2 and not v.keywords
+        rok &= good_ctor
+        if good_ctor:
+            # the return that follows the embedded-descriptor branch hands over exactly what json.loads produced
+            emb = nm is not None and [norm(a) for a in v.args] == [nm, fl]
+            if not emb:
+                fallback_lists.add(norm(v.args[1]))
+    if nm is not None and not any([norm(a) for a in rt_.value.args] == [nm, fl] for rt_ in rets if isinstance(rt_.value, ast.Call)):
+        rok = False
+    if fallback_lists:
+        fl = sorted(fallback_lists)[0]
     ctx.check(rok, "R19.3", "schema_to_descriptor:validated", "the descriptor is not rebuilt through RecordDescriptor (validation)", std,
               "RecordDescriptor(name, fields)")
     # fallback: a field whose name starts with "_" is never added
